@@ -46,6 +46,8 @@ def plan(tier, seed):
     specs.append({"name": "freq1", "kind": "freq", "shard": 81, "instances": 6 if tier == "quick" else 40, "timeout": 7000})
     for i in range(2 if tier == "quick" else 6):
         specs.append({"name": "cli%d" % i, "kind": "cli", "shard": 90 + i, "datasets": 1 if tier == "quick" else 3, "timeout": 7000})
+    for i in range(4):
+        specs.append({"name": "prog%d" % i, "kind": "prog", "shard": 110 + i, "datasets": 5 if tier == "quick" else 40, "timeout": 7000})
     for i in range(4 if tier == "quick" else 8):
         specs.append({"name": "comp%d" % i, "kind": "compound", "shard": 95 + i, "instances": 6 if tier == "quick" else 40, "timeout": 7000})
     return specs
@@ -55,7 +57,9 @@ def required(tier):
     return {"gibbs_vectors": 5000, "mh_vectors": 5000, "mh_db_edges": 5000, "compound_steps": 1000, "exact_posterior_checked": 50,
             "vectors_inbred": 1000, "vectors_nonflat": 1000, "vectors_zero_freq": 100, "vectors_with_cache": 1000,
             "freq_runs": 8, "cli_confident_calls_compared": 5, "compound_kernels_checked": 20,
-            "compound_paths_enumerated": 2000, "compound_rows_from_homozygous_state": 20}
+            "compound_paths_enumerated": 2000, "compound_rows_from_homozygous_state": 20,
+            "prog_targets_compared": 100, "prog_targets_with_prior_frequencies": 20, "prog_targets_with_zero_frequency_allele": 5,
+            "prog_targets_inbred": 20, "prog_datasets_per_sample_inbreeding": 4, "prog_records_with_tiny_nonzero_prior": 5}
 
 
 def make_instance(rng, tier):
@@ -443,7 +447,205 @@ def run_compound(tier, seed, spec, col):
             col.sample({"compound_kernel_instance": pack(I), "genotypes": [list(g) for g in gs], "exact_posterior": pi.tolist()})
 
 
+def run_prog(tier, seed, spec, col):
+    """The target `mchap call` hands to its sampler vs the distribution `mchap call-exact` reports, exactly.  Both programs
+    run in-process on the same generated inputs (mixed ploidy, per-sample inbreeding file, --prior-frequencies with zero
+    entries).  CallingMCMC is wrapped where the program constructs it; from the arguments it receives (ploidy, haplotypes,
+    inbreeding, frequencies, the reads of fit()) the oracle computes the exact posterior, relabels it to the record's
+    alleles and compares it with the GP vector call-exact prints (3 decimals).  Together with the kernel monitors (the
+    sampler is stationary at the posterior of its arguments) this decides 'same probabilities' at the program level
+    without any Monte-Carlo tolerance."""
+    import os
+    import shutil
+    import warnings
+
+    from mchap.application import call as CALL
+
+    from vlib import cli, datasets, env, hapvcf, vcfparse
+
+    for dI in range(spec["datasets"]):
+        rng = gen.rng_for(seed, ID, spec["shard"], dI)
+        root = env.workdir("c02-%s-%d" % (spec["name"], dI))
+        shutil.rmtree(root, ignore_errors=True)
+        n_s = int(rng.integers(2, 5))
+        ds = datasets.make_dataset(rng, root, n_samples=n_s, n_loci=int(rng.integers(2, 5)), ploidy=[2, 4], depth=(0, 7), contig_len=600,
+                                   snv_range=(1, 4), hostile=0.05, err=0.02)
+        use_freq = rng.random() < 0.6
+        recs = []
+        for L in ds.loci:
+            ref = ds.contigs[L["contig"]][L["start"]:L["stop"]]
+            alts = []
+            for smp in ds.samples:
+                for hap in ds.genotypes[(smp, L["name"])]:
+                    sq = datasets.hap_sequence(ds.contigs, L, hap, L["start"], L["stop"])
+                    if sq != ref and sq not in alts:
+                        alts.append(sq)
+            alts = alts[:4]
+            r = {"contig": L["contig"], "pos0": L["start"], "id": L["name"], "ref": ref, "alts": alts}
+            tiny = False
+            if use_freq:
+                w = rng.dirichlet(np.ones(1 + len(alts)))
+                w = np.round(w, 3)
+                if len(alts) >= 1 and rng.random() < 0.4:
+                    w[int(rng.integers(1, len(w)))] = 0.0      # an ALT the prior excludes
+                if len(alts) >= 1 and rng.random() < 0.4:
+                    # a very small but non-zero prior: the allele stays in the model (its likelihood can outweigh it)
+                    w[int(rng.integers(1, len(w)))] = float(rng.choice([1e-7, 1e-9, 1e-12]))
+                    tiny = True
+                if w.sum() <= 1e-6:
+                    w[0] = 1.0
+                r["info"] = {"AFP": ",".join(repr(float(x)) for x in w)}
+            if tiny:
+                col.count("prog_records_with_tiny_nonzero_prior")
+            recs.append(r)
+        hv = hapvcf.write(os.path.join(root, "haps.vcf"), hapvcf.render(ds.contigs, recs, info_defs=[{"ID": "AFP", "Number": "R", "Type": "Float"}] if use_freq else ()))
+        pf = os.path.join(root, "ploidy.txt")
+        with open(pf, "w") as fh:
+            for smp in ds.samples:
+                fh.write("%s\t%d\n" % (smp, ds.ploidy[smp]))
+        per_sample = rng.random() < 0.5
+        F = {smp: float(rng.choice([0.0, 0.1, 0.3, 0.6])) for smp in ds.samples}
+        if per_sample and len(set(F.values())) == 1:
+            F[ds.samples[-1]] = 0.45
+        if not per_sample:
+            f0 = float(rng.choice([0.0, 0.25]))
+            F = {smp: f0 for smp in ds.samples}
+        base = ["--haplotypes", hv, "--reference", ds.fasta, "--bam"] + ds.bams + ["--ploidy", pf]
+        if per_sample:
+            inf = os.path.join(root, "inbreeding.txt")
+            with open(inf, "w") as fh:
+                for smp in reversed(ds.samples):
+                    fh.write("%s\t%r\n" % (smp, F[smp]))
+            base += ["--inbreeding", inf]
+            col.count("prog_datasets_per_sample_inbreeding")
+        elif any(F.values()):
+            base += ["--inbreeding", repr(F[ds.samples[0]])]
+        if use_freq:
+            base += ["--prior-frequencies", "AFP"]
+        case = {"kind": "prog", "seed": seed, "shard": spec["shard"], "dataset": dI, "args": base[6:], "ploidy": dict(ds.ploidy), "inbreeding": F}
+        col.case(case, nontrivial=True)
+        oe, ee = cli.run_inproc(["call-exact"] + base + ["--report", "GP"])
+        if ee is not None:
+            col.inconclusive_note("call-exact raised on a generated dataset: %r" % (ee,))
+            shutil.rmtree(root, ignore_errors=True)
+            continue
+        he, re_ = vcfparse.parse(oe)
+        exact = {(r.chrom, r.pos): r for r in re_}
+        captured = []
+        Real = CALL.CallingMCMC
+
+        class Spy:
+            def __init__(self, **kw):
+                self.kw = kw
+                self.real = Real(**kw)
+
+            def fit(self, reads, read_counts=None, **kw2):
+                captured.append({"ploidy": int(self.kw["ploidy"]), "haplotypes": np.array(self.kw["haplotypes"], copy=True), "inbreeding": float(self.kw["inbreeding"]),
+                                 "frequencies": None if self.kw.get("frequencies") is None else np.array(self.kw["frequencies"], dtype=float, copy=True),
+                                 "reads": np.array(reads, copy=True), "counts": None if read_counts is None else np.array(read_counts, copy=True)})
+                return self.real.fit(reads=reads, read_counts=read_counts, **kw2)
+
+        per_locus = []
+        try:
+            with warnings.catch_warnings():
+                warnings.simplefilter("error", RuntimeWarning)
+                with monitors_patched((CALL, "CallingMCMC", Spy)):
+                    po = CALL.program.cli(["mchap", "call"] + base + ["--mcmc-steps", "40", "--mcmc-burn", "10", "--mcmc-seed", "5"])
+                    seen_data = []
+                    real_csg = po.call_sample_genotypes
+
+                    def spy_csg(data):
+                        seen_data.append(data)
+                        return real_csg(data)
+
+                    po.call_sample_genotypes = spy_csg
+                    for locus in po.loci():
+                        lo = len(captured)
+                        po.call_locus(locus, po.sample_bams)
+                        per_locus.append((seen_data[-1], lo, len(captured)))
+        except Exception as ex:  # noqa: BLE001
+            cli.relax_warnings()
+            col.inconclusive_note("call raised on a generated dataset: %s: %s" % (type(ex).__name__, str(ex)[:200]))
+            shutil.rmtree(root, ignore_errors=True)
+            continue
+        cli.relax_warnings()
+        stop = False
+        for data, lo, hi in per_locus:
+            if stop:
+                break
+            rec = exact.get((data.locus.contig, data.locus.start + 1))
+            if rec is None:
+                col.violation("call-and-call-exact-disagree-on-target", "call processed locus %s which call-exact did not emit" % data.locus.name, case)
+                break
+            S = list(data.samples)
+            if hi == lo:
+                col.count("prog_loci_without_sampler")  # NOA / AF0 record: nothing is sampled
+                continue
+            if hi - lo != len(S):
+                col.violation("call-and-call-exact-disagree-on-target", "call locus %s: %d samplers for samples %s" % (data.locus.name, hi - lo, S), case)
+                break
+            full = np.asarray(data.locus.encode_haplotypes())
+            for smp, c in zip(S, captured[lo:hi]):
+                where = "locus %s sample %s" % (data.locus.name, smp)
+                gp = rec.sample_list(smp, "GP")
+                if gp is None or None in gp:
+                    col.count("prog_exact_gp_missing")
+                    continue
+                if c["ploidy"] != ds.ploidy[smp] or abs(c["inbreeding"] - F[smp]) > 1e-12:
+                    col.violation("call-and-call-exact-disagree-on-target", "%s: call's sampler built with ploidy %d inbreeding %r, the input files say %d, %r"
+                                  % (where, c["ploidy"], c["inbreeding"], ds.ploidy[smp], F[smp]), case)
+                    stop = True
+                    break
+                labels = []
+                for h in c["haplotypes"]:
+                    m = [k for k in range(len(full)) if np.array_equal(full[k], h)]
+                    labels.append(m[0] if m else None)
+                if None in labels or len(set(labels)) != len(labels):
+                    col.violation("call-and-call-exact-disagree-on-target", "%s: the haplotypes given to call's sampler are not distinct alleles of the record" % where, case)
+                    stop = True
+                    break
+                fr = c["frequencies"]
+                if fr is not None and (abs(fr.sum() - 1.0) > 1e-9 or np.any(fr <= 0)):
+                    col.count("prog_targets_unnormalised_frequencies_skipped")
+                    continue
+                counts = None if c["counts"] is None else c["counts"].astype(np.int64)
+                gs, post, _, _ = M.exact_posterior(c["reads"], counts, c["haplotypes"], c["ploidy"], c["inbreeding"], fr)
+                want = np.zeros(M.n_genotypes(len(full), c["ploidy"]))
+                for g, p_ in zip(gs, post):
+                    want[M.genotype_index(tuple(sorted(labels[a] for a in g)))] += p_
+                col.count("prog_targets_compared")
+                if use_freq:
+                    col.count("prog_targets_with_prior_frequencies")
+                if len(labels) < len(full):
+                    col.count("prog_targets_with_zero_frequency_allele")
+                if c["inbreeding"] > 0:
+                    col.count("prog_targets_inbred")
+                if len(gp) != len(want):
+                    col.violation("call-and-call-exact-disagree-on-target", "%s: call-exact prints %d GP values, the record has %d genotypes" % (where, len(gp), len(want)), case)
+                    stop = True
+                    break
+                dev = float(np.max(np.abs(np.array(gp) - want)))
+                col.maxv("max_prog_target_deviation", dev)
+                if dev > 6e-4:
+                    k = int(np.argmax(np.abs(np.array(gp) - want)))
+                    col.violation("call-and-call-exact-disagree-on-target", "%s (ploidy %d, inbreeding %r, %d of %d alleles sampled%s): the posterior defined by the arguments of call's sampler gives genotype #%d probability %.6f, call-exact reports GP %.3f"
+                                  % (where, c["ploidy"], c["inbreeding"], len(labels), len(full), ", prior frequencies %s" % np.round(fr, 4).tolist() if fr is not None else "", k, want[k], gp[k]), case)
+                    stop = True
+                    break
+        if dI == 0 and spec["shard"] == 110:
+            col.sample({"prog": {"args": base[6:], "samples": ds.samples, "samplers_observed": len(captured)}})
+        shutil.rmtree(root, ignore_errors=True)
+
+
+def monitors_patched(*triples):
+    from vlib import monitors
+
+    return monitors.patched(*triples)
+
+
 def run_shard(tier, seed, spec, col):
+    if spec["kind"] == "prog":
+        return run_prog(tier, seed, spec, col)
     {"kernel": run_kernel, "freq": run_freq, "cli": run_cli, "compound": run_compound}[spec["kind"]](tier, seed, spec, col)
 
 
